@@ -495,6 +495,28 @@ func coveringDesigns() []DCase {
 		add(svc1("cov_cookies", &dg.Method{Name: "m", Payload: pa(dg.A(dg.Obj(fs...))), Result: pa(dg.A(dg.Obj(cloneFields(fs, nil)...))),
 			HTTP: &dg.HTTPMap{Routes: rt("GET", "/m"), Cookies: mapAll(fs, func(n string) string { return n + "_ck" }), Responses: []dg.Response{{Status: 200, Cookies: mapAll(fs, func(n string) string { return n + "_rck" })}}}}))
 	}
+	// 20b. typed request cookies: every parameter primitive, optional / required / defaulted, validated, and an
+	// alias of Int (the client encoder used to emit `vraw := p.C; vraw := strconv.Itoa(v)`)
+	{
+		var fs []*dg.Field
+		for _, p := range paramablePrims {
+			if p == "String" {
+				continue
+			}
+			n := lc(p)
+			fs = append(fs, dg.F("co_"+n, dg.Prim(p)), dg.Req("cr_"+n, dg.Prim(p)), dg.F("cd_"+n, dg.Prim(p)).Def(defaultOf(p)))
+			if isNum(p) {
+				fs = append(fs, dg.F("cv_"+n, dg.Prim(p)).With(dg.Validation{Min: dg.Fp(1), Max: dg.Fp(9)}))
+			}
+		}
+		fs = append(fs, dg.F("c_alias", dg.Ref("AliasI")))
+		d := svc1("cov_typed_cookies",
+			&dg.Method{Name: "m", Payload: pa(dg.A(dg.Obj(fs...))), HTTP: &dg.HTTPMap{Routes: rt("GET", "/m"), Cookies: mapAll(fs, func(n string) string { return n + "_ck" })}},
+			&dg.Method{Name: "one_int", Payload: pa(dg.A(dg.Obj(dg.F("c", dg.Prim("Int"))))), HTTP: &dg.HTTPMap{Routes: rt("GET", "/i"), Cookies: []dg.MapEntry{{Attr: "c"}}}},
+			&dg.Method{Name: "one_bool", Payload: pa(dg.A(dg.Obj(dg.Req("c", dg.Prim("Boolean"))))), HTTP: &dg.HTTPMap{Routes: rt("GET", "/b"), Cookies: []dg.MapEntry{{Attr: "c"}}}})
+		d.Types = []*dg.UserType{{Name: "AliasI", Base: dg.Prim("Int")}}
+		add(d)
+	}
 	// 21. Extend / Reference inheritance
 	{
 		d := svc1("cov_inherit",
